@@ -47,6 +47,8 @@ Definition res_code (r : result) : nat := match r with ROk => 1 | RErr => 2 | RP
 (* command-line outcomes: 5 nothing to do (all flags off), 6 directory refused, 7 planning failed, 8 aborted at the prompt, else the run's code *)
 Definition cli_code (r : cli_result) : nat :=
   match r with CliNothingToDo => 5 | CliOpenError => 6 | CliPlanError => 7 | CliAborted => 8 | CliDone x => res_code x end.
+(* a library run: 6 when the directory itself is refused (FsDb.Open fails), else the run's code *)
+Definition run_code (d : dir) (r : result) : nat := if negb (is_consistent (d_ents d)) then 6 else res_code r.
 Fixpoint insert_nat (x : nat) (l : list nat) : list nat :=
   match l with [] => [x] | y :: r => if Nat.leb x y then x :: l else y :: insert_nat x r end.
 Definition sort_nat (l : list nat) : list nat := fold_right insert_nat [] l.
@@ -56,7 +58,7 @@ Fixpoint exec (d : dir) (ss : list hstep) : list obsT :=
   | [] => []
   | U o :: r => let d' := apply_op d o in (0, [], observe (d_ents d) d') :: exec d' r
   | R s f :: r => let '(res, d', w) := run cur_csr cur_nilcert d s f in
-                  (res_code res, w, observe (d_ents d) d') :: exec d' r
+                  (run_code d res, w, observe (d_ents d) d') :: exec d' r
   | C f inp :: r => let '(res, d', w) := cli_sign cur_csr cur_nilcert d f inp in
                     (cli_code res, sort_nat w, observe (d_ents d) d') :: exec d' r
   end.
@@ -169,7 +171,7 @@ Fixpoint rule7 (d : dir) (ss : list hstep) (os : list obsT) (i : nat) : list (na
       match st with
       | U op => let d' := apply_op d op in (d', (0, [], observe (d_ents d) d'), None)
       | R s f => let '(r, d', mw) := run cur_csr cur_nilcert d s f in
-                 (d', (res_code r, mw, observe (d_ents d) d'), if has f then None else Some s)
+                 (d', (run_code d r, mw, observe (d_ents d) d'), if has f then None else Some s)
       | C f inp => let '(r, d', mw) := cli_sign cur_csr cur_nilcert d f inp in
                    (d', (cli_code r, sort_nat mw, observe (d_ents d) d'), Some (strat_of_flags f))
       end in
@@ -177,6 +179,14 @@ Fixpoint rule7 (d : dir) (ss : list hstep) (os : list obsT) (i : nat) : list (na
      | Some s => if Nat.eqb res 1 && negb (ln_eqb (sort_nat w) (spec_written d s)) then [(i, 7)] else []
      | None => []
      end)
+    (* rule 9 (C09): while some entity violates its profile a run is refused before anything is generated;
+       rule 10 (C18): a directory whose every entity reaches a root through defined issuers is not refused *)
+    ++ (match st with
+        | U _ => []
+        | _ => (if existsb (fun e => negb (g_valid (e_cfg e))) (d_ents d) && is_consistent (d_ents d)
+                   && (Nat.eqb res 1 || match w with [] => false | _ => true end) then [(i, 9)] else [])
+               ++ (if is_consistent (d_ents d) && Nat.eqb res 6 then [(i, 10)] else [])
+        end)
     ++ (if obs_eqb mo o then rule7 d' ss' os' (S i) else [])
   | _, _ => []
   end.
